@@ -35,3 +35,5 @@ META = dict(
     level_note="Trusted: harness live-set model, event-log clock (x86). Thread interleavings are sampled.",
     technique="runtime monitoring: reference live-set model after every operation + interval-bound checker over the event log + TSan/ASan",
 )
+
+CFG["rule"] += (" " + 'Additions: blocks obtained directly from the wrapped allocator are released / resized through the tracer; every 64th sequential case makes 4000-8192 allocations at level STACKS through as many distinct call chains; stage thr_tsanrel (-O2 under TSan).')
